@@ -1,3 +1,5 @@
+import Chartparse.Proofs.ChartCompose
+import Chartparse.Proofs.SustainProofs
 import Chartparse.Proofs.RateProofs
 import Chartparse.Proofs.TrackProofs
 import Chartparse.Proofs.InstProofs
@@ -53,5 +55,75 @@ theorem C03_last :
     (lastNoteEnd ns = none ↔ ns = []) ∧
     ∀ m, lastNoteEnd ns = some m → (∀ n ∈ ns, n.endTs ≤ m) ∧ ∃ n ∈ ns, n.endTs = m :=
   @Chartparse.Inst.lastNoteEnd_spec
+
+/-- the per-lane list always has the five lane slots -/
+theorem C03_slots :
+    ∀ (g : List NDatum),
+    (fill g).length = 5 :=
+  @Chartparse.Inst.fill_length
+
+/-- **C03, the per-lane list**: slot `i` (0..4) holds the length written on the *last* line of the group for lane `i`,
+    and nothing when the group has no line for that lane; lines with index 5, 6, 7 never appear in it -/
+theorem C03_lane_length :
+    ∀ (g : List NDatum) (i : Nat) (hi : i ≤ 4),
+    (fill g)[i]? = some (((g.filter (fun d => d.idx == i)).getLast?).map (·.sus)) :=
+  @Chartparse.Inst.fill_spec
+
+/-- a slot is occupied exactly when the lane is active -/
+theorem C03_inactive_none :
+    ∀ (g : List NDatum) (i : Nat) (hi : i ≤ 4),
+    ((fill g)[i]?.bind id).isSome = (g.any fun d => d.idx == i) :=
+  @Chartparse.Inst.fill_active
+
+/-- **C03, longest sustain of a tuple** is the maximum over the occupied slots (attained) -/
+theorem C03_longest_tuple :
+    ∀ (l : List (Option Nat)) (m : Nat) (h : longest (.tuple l) = .ok m),
+    (∀ x, some x ∈ l → x ≤ m) ∧ some m ∈ l :=
+  @Chartparse.Inst.longest_tuple
+
+/-- **C03, longest sustain of whatever `refine` reports**: always defined; the maximum lane length, attained by an active
+    lane — or zero when no lane is active -/
+theorem C03_longest :
+    ∀ (l : List (Option Nat)),
+    ∃ m, longest (refine l) = .ok m ∧ (∀ x, some x ∈ l → x ≤ m) ∧ (some m ∈ l ∨ (m = 0 ∧ ∀ d ∈ l, d = none)) :=
+  @Chartparse.Inst.longest_refine
+
+/-- **C03, end of a note**: for every note the track builder returns on a map the code accepts, the end tick is
+    `tick + longest sustain`, the end timestamp is the (hint-free) tempo-map time of that end tick, and it is never
+    before the start timestamp -/
+theorem C03_end :
+    ∀ (res : Nat) (raw : List (Nat × Rat)) (evs : List BpmEv) (hb : buildMap (res : Int) raw = .ok evs)
+    (sps : List Phrase) (g : List NDatum) (prev : Option NoteEv) (bidx sidx : Nat) (r : NoteEv × Nat × Nat)
+    (h : buildNote (res : Int) evs sps g prev bidx sidx = .ok r),
+    ∃ lg ge, longest r.1.sustain = .ok lg ∧
+      tsAt (res : Int) evs ((r.1.tick + lg : Nat) : Int) 0 = .ok (r.1.endTs, ge) ∧
+      tsAt (res : Int) evs (r.1.tick : Int) 0 = .ok (r.1.ts, r.1.idx) ∧
+      r.1.ts ≤ r.1.endTs :=
+  @Chartparse.Inst.note_end_spec
+
+/-- non-vacuity of `C03_end`: a sustained note across a tempo change on an accepted map -/
+example : (match buildMap 192 [(0, 120), (100, 240)] with
+    | .ok evs => (match buildNote 192 evs [] [⟨50, 0, 100⟩, ⟨50, 3, 20⟩] none 0 0 with
+        | .ok r => decide (r.1.ts < r.1.endTs) && (r.1.sustain == .tuple [some 100, none, none, some 20, none])
+        | _ => false)
+    | _ => false) = true := by decide +kernel
+
+/-- **the notes of every track of every returned chart** are `buildNotes` of the tick groups of the N lines of one of the
+    text's own instrument sections, against that section's own S lines, the chart's resolution and the chart's tempo map,
+    starting with no previous note and both cursors at zero — so `NotesOf` holds and with it every track-level theorem
+    (C02 ticks/lanes, C03 sustains, C04 HOPO rule, C05 star power, C11 timestamps) -/
+theorem C03_chart :
+    ∀ (secs : Sections) (want : Option (List (Nat × Nat))) (c : Chart)
+    (h : parseSections secs want = .ok c) (rt : RoutedTrack) (hrt : rt ∈ c.tracks),
+    ∃ tag lines, (tag, lines) ∈ secs ∧ (routeOf tag).isSome = true ∧
+      buildNotes c.res c.sync.bpms (sectionPhrases lines) (groups (sectionNotes lines)) none 0 0 = .ok rt.track.notes ∧
+      NotesOf c.res c.sync.bpms (sectionPhrases lines) (groups (sectionNotes lines)) none 0 0 rt.track.notes :=
+  @Chartparse.chart_track_notes
+
+/-- the listed known finding `flag-before-open`, as a kernel-checked witness on the model: with the flag line written first,
+    the open note's written length is lost (and `C03_open` above needs the open line to be first) -/
+theorem open_after_flag_loses_length :
+    complexSustain [⟨48, 5, 0⟩, ⟨48, 7, 100⟩] = .ok (.ticks 0) ∧ complexSustain [⟨48, 7, 100⟩, ⟨48, 5, 0⟩] = .ok (.ticks 100) := by
+  decide
 
 end Chartparse.Props.C03
